@@ -62,7 +62,7 @@ Lemma read_store_header_other Os o h v σ x :
   hdr_of x <> Some (o, h) -> read (store_header Os o h v σ) x = read σ x.
 Proof.
   intros Hx. unfold store_header.
-  destruct v as [? ?|? ?|? ns ?|? ?|? ?]; try (apply (read_set_hdrs_other o h); auto; intros; apply hget_hset_other; auto).
+  destruct v as [? ?|? ?|? ns ?|? ?|? ?|? ?]; try (apply (read_set_hdrs_other o h); auto; intros; apply hget_hset_other; auto).
   destruct ns; apply (read_set_hdrs_other o h); auto; intros; [apply hget_hdel_other | apply hget_hset_other]; auto.
 Qed.
 
